@@ -23,7 +23,7 @@ FLOORS = {"quick": {"steps_disconnected": 5000, "steps_connected": 1500, "availa
 EXHAUSTIVE = {"quick": True, "thorough": True}
 
 OPS = ["shell", "exec_out", "streaming_shell", "root", "reboot", "list", "stat", "pull", "push"]
-ALPHABET = ["connect-ok", "connect-pubkey", "connect-refused", "connect-nokeys", "connect-silent", "close"] + OPS + ["list-empty", "stat-empty", "pull-empty", "push-empty"]
+ALPHABET = ["connect-ok", "connect-pubkey", "connect-refused", "connect-nokeys", "connect-silent", "close"] + OPS + ["list-empty", "stat-empty", "pull-empty", "push-empty"] + ["push-dir", "stream-create", "stream-next"]
 
 
 def gen_cases(tier, seed):
@@ -32,6 +32,13 @@ def gen_cases(tier, seed):
         for a in range(len(ALPHABET)):
             for b in range(len(ALPHABET)) if L >= 4 else [None]:
                 yield {"kind": "exh", "impl": impl, "prefix": [a] if b is None else [a, b], "L": L}
+    A = {n: i for i, n in enumerate(ALPHABET)}
+    directed = [["connect-ok", "stream-create", "close", "stream-next"], ["connect-ok", "stream-create", "connect-refused", "stream-next"],
+                ["connect-ok", "stream-create", "connect-silent", "stream-next"], ["connect-ok", "stream-create", "close", "connect-ok", "stream-next"],
+                ["connect-ok", "close", "push-dir"], ["connect-ok", "connect-nokeys", "push-dir", "pull"], ["connect-pubkey", "push-dir", "close", "push-dir"]]
+    for impl in ("sync", "async"):
+        for d in directed:
+            yield {"kind": "directed", "impl": impl, "seq": [A[x] for x in d]}
     n = 300 if tier == "quick" else 5000
     for i in range(n):
         yield {"kind": "rand", "impl": ("sync", "async")[i % 2], "seed": "%d:%d" % (seed, i)}
@@ -72,12 +79,18 @@ def run_sequence(impl, seq, stats, tmp):
     samples = []
     in_connect = [False]
 
+    in_close = [False]
+    close_samples = []
+
     def on_call(kind):
         if in_connect[0]:
             samples.append(sess.dev.available)
+        if in_close[0]:
+            close_samples.append(sess.dev.available)
     sess.core.on_call = on_call
     model = False
     names = []
+    pending_gen = [None]     # a streaming_shell generator that was created but not yet advanced
     try:
         for i, sym in enumerate(seq):
             name = ALPHABET[sym]
@@ -124,14 +137,69 @@ def run_sequence(impl, seq, stats, tmp):
                     want = {"connect-nokeys": "DeviceAuthError"}.get(name)
                     if want and out.exc_name() != want:
                         viol.append({"mechanism": "connect-exception", "detail": "%s raised %s, expected %s" % (where, out.brief(100), want)})
+            elif name == "stream-create":
+                # creating the generator must not touch the transport whatever the state; whether it may raise right away is not specified
+                try:
+                    if impl == "sync":
+                        pending_gen[0] = sess.dev.streaming_shell("t", decode=False)
+                    else:
+                        pending_gen[0] = sess.dev.streaming_shell("t", decode=False)
+                except Exception:  # noqa
+                    pending_gen[0] = None
+                sim.scripts[b"shell:t"] = [b"line1", b"line2"]
+                if len(sess.core.written) != before_written:
+                    viol.append({"mechanism": "bytes-written", "detail": "%s: creating the streaming_shell generator wrote %d bytes" % (where, len(sess.core.written) - before_written)})
+            elif name == "stream-next":
+                g = pending_gen[0]
+                pending_gen[0] = None
+                if g is not None:
+                    stats["deferred_generators"] += 1
+                    try:
+                        if impl == "sync":
+                            first = next(g)
+                            g.close()
+                        else:
+                            async def _first(gen_):
+                                try:
+                                    return await gen_.__anext__()
+                                finally:
+                                    await gen_.aclose()
+                            first = sess.loop.run_until_complete(_first(g))
+                        res = ("ret", first)
+                    except Exception as e:  # noqa
+                        res = ("exc", type(e).__name__)
+                    if not model:
+                        if res != ("exc", "AdbConnectionError"):
+                            viol.append({"mechanism": "deferred-generator", "detail": "%s: first item of a streaming_shell generator requested while disconnected gave %r, expected AdbConnectionError" % (where, res)})
+                        if len(sess.core.written) != before_written:
+                            viol.append({"mechanism": "bytes-written", "detail": "%s: advancing the generator while disconnected wrote %d bytes" % (where, len(sess.core.written) - before_written)})
+                    elif res != ("ret", b"line1"):
+                        viol.append({"mechanism": "connected-op:wrong-output", "detail": "%s: first item %r" % (where, res)})
             elif name == "close":
+                in_close[0] = True
+                del close_samples[:]
                 out = sess.call("close")
+                in_close[0] = False
+                stats["available_samples_during_close"] += len(close_samples)
+                if any(close_samples):
+                    viol.append({"mechanism": "available-during-close", "detail": "%s: available was still True while close() was closing the transport" % where})
                 if not out.ok:
                     viol.append({"mechanism": "close-raised", "detail": "%s: %s" % (where, out.brief(150))})
                 model = False
             else:
                 op, _, empty = name.partition("-")
-                if empty or not model:
+                isdir = empty == "dir"
+                if isdir:
+                    empty = ""
+                if isdir and model:
+                    # connected: a directory push works (two small files)
+                    out = sess.call("push", os.path.join(tmp, "srcdir"), "/ddir", mtime=4)
+                    stats["steps_connected"] += 1
+                    got = sorted((bytes(p["path"]), bytes(p["data"])) for p in sim.sync_plan.pushed if p["path"].startswith(b"/ddir/"))
+                    del sim.sync_plan.pushed[:]
+                    if not out.ok or got != [(b"/ddir/a", b"AAA"), (b"/ddir/b", b"BB")]:
+                        viol.append({"mechanism": "connected-op:dir-push", "detail": "%s: %s, device got %r" % (where, out.brief(100), got)})
+                elif empty or not model:
                     # must raise without touching the transport or the filesystem
                     path = "" if empty else STEP_SPECS[op].get("path", "")
                     if op in ("shell", "exec_out", "streaming_shell"):
@@ -143,8 +211,8 @@ def run_sequence(impl, seq, stats, tmp):
                     elif op == "pull":
                         out = sess.call(op, path, os.path.join(tmp, "must-not-exist-%d" % i))
                     else:
-                        src = os.path.join(tmp, "src")
-                        out = sess.call(op, src, path)
+                        src = os.path.join(tmp, "srcdir" if isdir else "src")
+                        out = sess.call(op, src, "/ddir" if isdir else path)
                     stats["steps_disconnected" if not model else "steps_empty_path_connected"] += 1
                     allowed = set()
                     if not model:
@@ -161,7 +229,8 @@ def run_sequence(impl, seq, stats, tmp):
                     if new_files:
                         viol.append({"mechanism": "file-created", "detail": "%s created %r" % (where, sorted(new_files))})
                         for f in new_files:
-                            os.unlink(os.path.join(tmp, f))
+                            if f not in ("src", "srcdir"):
+                                os.unlink(os.path.join(tmp, f))
                 else:
                     out, v = runner.run_step(i, dict(STEP_SPECS[op]))
                     stats["steps_connected"] += 1
@@ -190,10 +259,14 @@ def nontrivial(seq):
 
 
 def run_case(case):
-    stats = {"steps_disconnected": 0, "steps_connected": 0, "steps_empty_path_connected": 0, "connect_attempts": 0, "available_samples_during_connect": 0, "sequences": 0}
+    stats = {"steps_disconnected": 0, "steps_connected": 0, "steps_empty_path_connected": 0, "connect_attempts": 0, "available_samples_during_connect": 0, "sequences": 0, "available_samples_during_close": 0, "deferred_generators": 0}
     tmp = tempfile.mkdtemp(prefix="verif-c13-", dir=os.environ.get("VERIF_TMP", "/tmp"))
     with open(os.path.join(tmp, "src"), "wb") as f:
         f.write(scen.blob("c13h", 100))
+    os.mkdir(os.path.join(tmp, "srcdir"))
+    for nm, data in (("a", b"AAA"), ("b", b"BB")):
+        with open(os.path.join(tmp, "srcdir", nm), "wb") as f:
+            f.write(data)
     viol = []
     sigs = []
     try:
@@ -209,6 +282,8 @@ def run_case(case):
             # shorter prefixes (length 1 .. len(pre)-1) are emitted once, by the case whose later prefix symbols are 0
             if len(pre) == 2 and pre[1] == 0:
                 seqs.append([pre[0]])
+        elif case["kind"] == "directed":
+            seqs = [case["seq"]]
         else:
             rng = gen.rng_for("C13", case["seed"])
             seqs = [[rng.randrange(len(ALPHABET)) for _ in range(rng.randint(5, 8))]]
@@ -216,7 +291,7 @@ def run_case(case):
             v = run_sequence(case["impl"], seq, stats, tmp)
             stats["sequences"] += 1
             for f in os.listdir(tmp):
-                if f != "src":
+                if f not in ("src", "srcdir"):
                     os.unlink(os.path.join(tmp, f))
             if nontrivial(seq):
                 sigs.append("%s|%s" % (case["impl"], ".".join(str(s) for s in seq)))
